@@ -131,6 +131,56 @@ func init() {
 		ex.conc.threads = append(ex.conc.threads, &ThreadSpec{Name: "env:cancel:" + name, EnvCancel: name})
 		return &IfaceV{V: ctx}
 	}
+	// context.WithCancel / WithTimeout / WithDeadline (sequential mode; parents cancelled by an
+	// environment event - concurrent mode - are not supported): the child is done from the earliest
+	// of (parent's cancellation instant, its own deadline, the instant its cancel function is called)
+	i64 := SInt(64, true)
+	never := func(ex *Exec) *Term { return ex.ts.IntS(i64, 1<<63-1) }
+	minT := func(ex *Exec, a, b *Term) *Term { return ex.ts.Ite(ex.ts.IntCmp("le", a, b), a, b) }
+	derive := func(ex *Exec, parentV Value, own *Term, dl *Term) Value {
+		parent := ctxOf(parentV)
+		eff := never(ex)
+		var pdl, phas *Term
+		for p := parent; p != nil; p = p.Parent {
+			if p.CancelEvent {
+				panic(unsupported("context derived from an environment-cancelled context"))
+			}
+			if p.Cancel != nil {
+				eff = minT(ex, eff, p.Cancel)
+			}
+			if p.Deadline != nil && pdl == nil {
+				pdl, phas = p.Deadline, p.HasDl
+			}
+		}
+		if own != nil {
+			eff = minT(ex, eff, own)
+		}
+		c := &CtxV{Parent: parent, Name: "derived", Cancel: eff}
+		switch {
+		case dl != nil && pdl != nil:
+			// the earlier of the two deadlines
+			c.Deadline = ex.ts.Ite(ex.ts.And(phas, ex.ts.IntCmp("le", pdl, dl)), pdl, dl)
+			c.HasDl = ex.ts.Bool(true)
+		case dl != nil:
+			c.Deadline, c.HasDl = dl, ex.ts.Bool(true)
+		}
+		cancel := &Closure{Intr: "context.cancelFunc", Bind: []Value{c}}
+		return TupleV{&IfaceV{V: c}, cancel}
+	}
+	I["context.cancelFunc"] = func(ex *Exec, a []Value) Value {
+		c := a[0].(*CtxV)
+		c.Cancel = minT(ex, c.Cancel, ex.now())
+		return nil
+	}
+	I["context.WithCancel"] = func(ex *Exec, a []Value) Value { return derive(ex, a[0], nil, nil) }
+	I["context.WithTimeout"] = func(ex *Exec, a []Value) Value {
+		at := ex.ts.IntBin("add", ex.now(), a[1].(*Term))
+		return derive(ex, a[0], at, at)
+	}
+	I["context.WithDeadline"] = func(ex *Exec, a []Value) Value {
+		at := ex.timeNanos(a[1])
+		return derive(ex, a[0], at, at)
+	}
 	I[rtPkg+"TimeAt"] = func(ex *Exec, a []Value) Value { return ex.timeValue(a[0].(*Term)) }
 	I[rtPkg+"Offer"] = func(ex *Exec, a []Value) Value {
 		var ch *ChanV
